@@ -33,6 +33,10 @@ def maxL : List Rat → Option Rat
     | none => some x
     | some m => some (max x m)
 
+/-- default `dist_max` of `cqd_score`: the norm — in the *same* order as the distances — of
+`upper_bounds − lower_bounds` (`np.linalg.norm(self.upper_bounds - self.lower_bounds, ord=dist_ord)`) -/
+def defaultDistMax (ord : Ord) (lo hi : List Rat) : Rat := dist ord hi lo
+
 structure Elite where
   obj  : Rat
   meas : List Rat
